@@ -95,7 +95,7 @@ impl Property for C03 {
     }
 
     fn cases(&self, seed: u64, tier: Tier) -> Vec<Case> {
-        let n = if tier == Tier::Quick { 220 } else { 2500 };
+        let n = if tier == Tier::Quick { 600 } else { 5000 };
         let mut out = vec![];
         // hand-written corpus first
         for (name, src) in corpus() {
@@ -116,7 +116,7 @@ impl Property for C03 {
                         idx.map(|i| truth[i] == nb[&h]).unwrap_or(false)
                     });
                     if !agree {
-                        eprintln!("C03: note: generator truth and naga analysis disagree on case {i}; case dropped");
+                        note(format!("generator truth and naga analysis disagree on case {i}; case dropped"));
                         continue;
                     }
                 }
@@ -200,17 +200,10 @@ pub fn is_documented_panic(msg: &str) -> bool {
     msg.contains("not yet implemented") || msg.contains("Unsupported") || msg.contains("not supported") || msg.contains("only supported with") || msg.contains("Runtime-sized array") || msg.contains("runtime-sized array") || msg.contains("Failed to generate BindingType")
 }
 
+/// Hand-written shaders (embedded at build time).
 fn corpus() -> Vec<(String, String)> {
-    let mut v = vec![];
-    let dir = concat!(env!("CARGO_MANIFEST_DIR"), "/corpus/C03");
-    if let Ok(rd) = std::fs::read_dir(dir) {
-        let mut names: Vec<_> = rd.filter_map(|e| e.ok()).map(|e| e.path()).filter(|p| p.extension().map(|e| e == "wgsl").unwrap_or(false)).collect();
-        names.sort();
-        for p in names {
-            if let Ok(s) = std::fs::read_to_string(&p) {
-                v.push((p.file_name().unwrap().to_string_lossy().to_string(), s));
-            }
-        }
-    }
-    v
+    vec![
+        ("continuing.wgsl".to_string(), include_str!("../../corpus/C03/continuing.wgsl").to_string()),
+        ("keepalive.wgsl".to_string(), include_str!("../../corpus/C03/keepalive.wgsl").to_string()),
+    ]
 }
